@@ -613,6 +613,16 @@ else:
 
                 cls.__model_fields__[name] = field
 
+        def __eq__(self, other: Any) -> bool:
+            # Like Pydantic: same model class and equal members. (The comparison the
+            # dataclass decorator would generate has no fields to compare, so any two
+            # instances of one class would be equal.)
+            if self.__class__ is not other.__class__:
+                return NotImplemented
+            return self.__dict__ == other.__dict__
+
+        __hash__ = None  # type: ignore[assignment]
+
         def __init__(self, /, **data: Any):
             # Process aliases
             processed_data = self._process_aliases(data)
